@@ -159,7 +159,7 @@ prop("C02",
 
 prop("C01",
      title="Responses are routed to the operation whose message ID they carry",
-     rule="per case one in-memory connection, 1-6 cloned handles each running 1-5 operations (all single-result kinds, search(), direct streaming searches read to the end) as concurrent tasks; the multiplexing server collects outstanding requests and answers them in a seeded random order, item by item, interleaving entries/references/intermediates of different searches with single results, every TLV in a random legal length form, bursts re-chunked whole / randomly / byte-by-byte / in halves with injected spurious Pending reads, and injects responses addressed to nobody (ID 0 incl. the Active Directory notice form, IDs of completed operations, unknown IDs). Every response element carries a unique token (wire ID, sequence); the value returned by each call must equal exactly the plan the server executed for the wire ID of that call's own request (joined through the request token), items in server order. hostile_ids lane: additionally responses whose INTEGER ID is outside 0..2^31-1 and aliases an outstanding ID after 32-bit truncation (must reach nobody; ending the connection with a decoding error is accepted). abandoned lane: streams and single operations abandoned in flight from a cloned handle while the server keeps sending under the abandoned ID. non-trivial = more than one handle or interleaved operations; distinct = distinct (server send order, case) fingerprints; evidence also counts distinct driver select!-branch sequences observed through the H3 gauge",
+     rule="per case one in-memory connection, 1-6 cloned handles each running 1-5 operations (all single-result kinds, search(), direct streaming searches read to the end) as concurrent tasks; the multiplexing server collects outstanding requests and answers them in a seeded random order, item by item, interleaving entries/references/intermediates of different searches with single results, every TLV in a random legal length form, bursts re-chunked whole / randomly / byte-by-byte / in halves with injected spurious Pending reads, and injects responses addressed to nobody (ID 0 incl. the Active Directory notice form, IDs of completed operations, unknown IDs). Every response element carries a unique token (wire ID, sequence); the value returned by each call must equal exactly the plan the server executed for the wire ID of that call's own request (joined through the request token), items in server order. hostile_ids lane: additionally responses whose INTEGER ID is outside 0..2^31-1 and aliases an outstanding ID after 32-bit truncation (must reach nobody; ending the connection with a decoding error is accepted). abandoned lane: streams and single operations abandoned in flight from a cloned handle while the server keeps sending under the abandoned ID. routing_threads lane: the routing workload on multi-thread runtimes with 2-4 real OS worker threads and real time (true parallelism between handles, driver and server; a wall-clock expiry there is inconclusive). Miri lane (thorough): all lanes at tiny size under the UB/data-race interpreter. non-trivial = more than one handle or interleaved operations; distinct = distinct (server send order, case) fingerprints; evidence also counts distinct driver select!-branch sequences observed through the H3 gauge",
      claim="held on every generated schedule of this run; the evidence lists routed responses, nobody-responses sent, distinct server orders and distinct driver branch sequences actually observed",
      design="3/C01", technique="history checker joining client-boundary return values with the scripted server's wire log through unique request/response tokens, under seeded response orders, chunkings and select! resolutions",
      note=NETWORLD)
